@@ -141,7 +141,7 @@ func ruleDistributor(w *World, r *Run) {
 				good = implies(s.Facts, "==", sc, mk("const", "200", 0, types.Typ[types.Int]), true)
 				// the request sent is the one built (with the caller's context)
 				a0 := do[0].Args[0]
-				if !(a0 == res(reqs[0], 0) || (a0.Kind == "call" && a0.Name == "(*net/http.Request).WithContext" && a0.Args[1] == res(reqs[0], 0) && a0.Args[2] == ctx)) {
+				if !(a0 == res(reqs[0], 0) || (a0.Kind == "call" && a0.Name == "(*net/http.Request).WithContext" && a0.Args[1] == res(reqs[0], 0) && ctxDerived(a0.Args[2], ctx))) {
 					good = false
 				}
 				// method still PUT (redirects may rewrite it)
@@ -561,4 +561,21 @@ func ruleReadHandlers(w *World, r *Run) {
 	if nLogs == 0 {
 		r.Undecided("C16.d", fnHRegister+" | logs route", "", "no success path of the log-list handler")
 	}
+}
+
+
+// ctxDerived: t is ctx or a context derived from it by context.WithTimeout/WithDeadline/WithCancel (a bound added on
+// top of the caller's context keeps the caller's cancellation).
+func ctxDerived(t, ctx *Term) bool {
+	for i := 0; i < 4 && t != nil; i++ {
+		if t == ctx {
+			return true
+		}
+		if t.Kind == "call" && (t.Name == "context.WithTimeout" || t.Name == "context.WithDeadline" || t.Name == "context.WithCancel" || t.Name == "context.WithValue") && t.Idx <= 1 && len(t.Args) >= 3 {
+			t = t.Args[2]
+			continue
+		}
+		return false
+	}
+	return false
 }
